@@ -256,6 +256,16 @@ def odd_situations():
     # Diffie-Hellman secrets with leading zero octets: with the 521-bit curve the first octet holds one significant bit, so
     # about every second exchange has one (ten rekeys in a row)
     c = S.base_confs(a_over={'dh': ['21']}, b_over={'dh': ['21']}, a_entry={'dh': ['21']}, b_entry={'dh': ['21']})
+    # the peer goes silent: while idle (liveness check unanswered), in the middle of a CHILD_SA rekey, in the middle of an IKE
+    # rekey, before the initial exchanges complete - the IKE_SA is given up and whatever goes with it is torn down
+    rsa_a = {"id": "alice@openikev2", "privkey": S.PRIVKEY}
+    for lab, conf in (('psk', S.base_confs()), ('rsa', S.base_confs(a_over={'my_auth': rsa_a},
+                                                                     b_over={'peer_auth': {"id": "alice@openikev2", "pubkey": S.PUBKEY}}))):
+        for what, trig in (('idle', [('due', 'A', -1, 'dpd')]), ('child-rekey', ['soft:A']), ('ike-rekey', [('due', 'B', -1, 'rekey_ike')]),
+                           ('second-child', [('acquire', 'B', 0, 0)])):
+            out.append(('peer-goes-silent:%s:%s' % (what, lab), conf, None, [('acquire', 'A', 0, 0), 'drain'] + trig + ['silence']))
+        out.append(('peer-goes-silent:half-open:%s' % lab, conf, None, [('acquire', 'A', 0, 0), 'silence']))
+        out.append(('peer-goes-silent:auth-outstanding:%s' % lab, conf, None, [('acquire', 'A', 0, 0), 'one', 'one', 'silence']))
     out.append(('dh-secrets-with-leading-zero', c, None,
                 [('acquire', 'A', 0, 0), 'drain'] + [('due', 'A', -1, 'rekey_ike'), 'drain', ('acquire', 'B', 0, 0), 'drain'] * 5))
     return out
@@ -282,6 +292,20 @@ def run_handshakes():
                 while w.net and steps < 30:
                     steps += 1
                     do(('deliver', w.net[0].id))
+            elif item == 'one':
+                if w.net:
+                    do(('deliver', w.net[0].id))
+            elif item == 'silence':
+                # nothing gets through any more: both ends run into their retransmission limits
+                for _ in range(45):
+                    w.net[:] = []
+                    do(('tick', 1.0))
+                    if not any(e.controller.ike_sas for e in w.endpoints.values()):
+                        break
+            elif isinstance(item, str) and item.startswith('soft:'):
+                sas = w.endpoints[item[5:]].controller.ike_sas
+                if sas and sas[-1].child_sas:
+                    do(('expire', item[5:], bytes(sas[-1].child_sas[0].inbound_spi), False))
             elif item[0] == 'threshold':
                 w.endpoints[item[1]].controller.cookie_threshold = item[2]
             else:
